@@ -128,7 +128,7 @@ SYM = {
     'positive': lambda a: a,
     'absolute': _abs,
     'fabs': _abs,
-    'square': lambda a: a * a,
+    'square': lambda a: core.fl_square(a),
     'sqrt': lambda a: fl_sqrt(a),
     'log': lambda a: fl_log(a),
     'log2': _log2,
